@@ -122,6 +122,7 @@ func (c *Conversation) processSMP(in tlv) (out tlv, complete bool, err error) {
 			return
 		}
 		if out, err = c.processSMP2(mpis); err != nil {
+			c.resetSMP()
 			out = c.generateSMPAbort()
 			return
 		}
@@ -145,6 +146,9 @@ func (c *Conversation) processSMP(in tlv) (out tlv, complete bool, err error) {
 			return
 		}
 		if err = c.processSMP4(mpis); err != nil {
+			// The exchange is over: expect a fresh SMP1 next, as the
+			// abort tells the peer to.
+			c.resetSMP()
 			out = c.generateSMPAbort()
 			return
 		}
